@@ -184,3 +184,81 @@ Proof.
     try (assert (steps <? S steps = true) as -> by (apply Nat.ltb_lt; lia));
     (destruct (N =? 0) eqn:E0; [apply Nat.eqb_eq in E0; subst N; try lia; now rewrite Hb0|reflexivity]).
 Qed.
+
+(* ------------------------------------------------------------------ *)
+(* Wave 4: the oracle is consulted exactly once per window STARTED (theorem counterpart of
+   the harness key `reshuffle-count`).  Conservation law of the refill loop: the number of
+   reshuffles times N plus the cursor grows by exactly the number of indices drawn. *)
+Section ShuffleCount.
+Variable shuf : nat -> list nat -> list nat.
+Variable N : nat.
+Hypothesis Npos : 1 <= N.
+
+Lemma fill_count : forall fuel need (s : C04_Model.st) acc, need < fuel -> pos s <= N -> 1 <= pos s ->
+  let s' := fst (C04_Model.fill shuf N fuel need s acc) in
+  nsh s' * N + pos s' = nsh s * N + pos s + need /\ pos s' <= N /\ 1 <= pos s'.
+Proof.
+  induction fuel as [|f IH]; intros need s acc Hfuel Hpos Hpos1; [lia|].
+  cbn [C04_Model.fill]. destruct (need =? 0) eqn:E0.
+  - apply Nat.eqb_eq in E0. cbn [fst]. lia.
+  - apply Nat.eqb_neq in E0.
+    set (s1 := if N - pos s =? 0 then mk (shuf (nsh s) (buf s)) 0 (S (nsh s)) else s).
+    assert (H1 : nsh s1 * N + pos s1 = nsh s * N + pos s /\ pos s1 < N).
+    { unfold s1. destruct (N - pos s =? 0) eqn:Ea.
+      - apply Nat.eqb_eq in Ea. cbn [nsh pos]. split; [nia|lia].
+      - apply Nat.eqb_neq in Ea. split; [reflexivity|lia]. }
+    destruct H1 as [Hc Hlt]. cbv zeta.
+    set (used := Nat.min (N - pos s1) need).
+    assert (Hu : 1 <= used <= need /\ used <= N - pos s1) by (unfold used; lia).
+    specialize (IH (need - used) (mk (buf s1) (pos s1 + used) (nsh s1))
+                   (acc ++ firstn used (skipn (pos s1) (buf s1)))).
+    cbv zeta in IH. cbn [pos nsh] in IH. destruct IH as (Hc' & Hle & Hge); try lia.
+Qed.
+
+(* the state after `steps` batches *)
+Fixpoint final_state (steps bs : nat) (s : C04_Model.st) : C04_Model.st :=
+  match steps with
+  | O => s
+  | S k => final_state k bs (fst (C04_Model.fill shuf N (S bs) bs s []))
+  end.
+
+Lemma final_state_count : forall steps bs s, pos s <= N -> 1 <= pos s ->
+  nsh (final_state steps bs s) * N + pos (final_state steps bs s) = nsh s * N + pos s + steps * bs /\
+  1 <= pos (final_state steps bs s) <= N.
+Proof.
+  induction steps as [|k IH]; intros bs s Hle Hge; cbn [final_state]; [lia|].
+  destruct (fill_count (S bs) bs s [] ltac:(lia) Hle Hge) as (Hc & Hle' & Hge').
+  destruct (IH bs _ Hle' Hge') as (Hc2 & Hb). split; [|exact Hb]. rewrite Hc2, Hc. cbn. lia.
+Qed.
+
+(* after steps*bs draws from the initial state exactly ceil(steps*bs / N) reshuffles were made *)
+Lemma reshuffles_are_windows_started steps bs :
+  let k := nsh (final_state steps bs (C04_Model.init N)) in
+  steps * bs <= k * N < steps * bs + N.
+Proof.
+  destruct (final_state_count steps bs (C04_Model.init N)) as (Hc & Hb); cbn [C04_Model.init pos nsh] in *; try lia.
+Qed.
+
+(* `run` produces its batches along exactly these states *)
+Lemma run_S steps bs s :
+  C04_Model.run shuf N (S steps) bs s
+  = let (s', b) := C04_Model.fill shuf N (S bs) bs s [] in b :: C04_Model.run shuf N steps bs s'.
+Proof. reflexivity. Qed.
+
+Lemma run_along_final_state : forall steps bs s,
+  C04_Model.run shuf N (S steps) bs s
+  = C04_Model.run shuf N steps bs s ++ [snd (C04_Model.fill shuf N (S bs) bs (final_state steps bs s) [])].
+Proof.
+  induction steps as [|k IH]; intros bs s.
+  - rewrite run_S. cbn [C04_Model.run final_state app]. destruct (C04_Model.fill shuf N (S bs) bs s []); reflexivity.
+  - rewrite (run_S (S k)). rewrite (run_S k bs s). cbn [final_state].
+    destruct (C04_Model.fill shuf N (S bs) bs s []) as [s' b]. cbn [fst]. rewrite IH. reflexivity.
+Qed.
+End ShuffleCount.
+
+(* documented defaults of ShuffleRepeatBatchHParams (translated from the class body) *)
+Lemma hparams_defaults_c04 :
+  hp_shuffle_num_epochs_default = Some 1%Z /\ hp_shuffle_num_steps_default = None /\
+  hp_shuffle_drop_remainder_default = false /\ hp_shuffle_seed_default = None /\
+  hp_shuffle_skip_shuffle_default = false.
+Proof. repeat split. Qed.
